@@ -352,3 +352,71 @@ def show(t, depth=0):
     if k == "phi":
         return "phi(%s)" % " | ".join(show(x, depth + 1) for x in t[1])
     return str(t)
+
+
+# ---- summaries of pure constructor helpers ---------------------------------------------------
+PURE_CALL_NAMES = ("identity", "to_string", "to_owned", "clone", "into", "from", "format", "type_name", "name", "as_str", "new_display", "new", "from_str")
+_summary_cache = {}
+
+
+def ctor_summary(f, defn, adts=None):
+    """If `defn` is a crate-local, non-async function whose return value is (on every path) one
+    aggregate expression over its parameters and which performs only pure calls, return that
+    expression as a term over ("param", i); otherwise None. Lets rules see through helper
+    functions such as `fn closed_error(&self) -> Error { Error::Send { .. } }`."""
+    key = (f.path, defn)
+    if key in _summary_cache:
+        return _summary_cache[key]
+    res = None
+    b = f.body(defn)
+    fn = f.fns.get(defn)
+    if b is not None and fn is not None and not fn.get("async") and b.def_kind in ("Fn", "AssocFn") and len(b.blocks) <= 60:
+        tr = Tracer(b)
+        r = strip_wrappers(tr.norm(tr.local(0)))
+        core = r
+        if core[0] == "agg" and core[1][0] == "adt" and core[1][1] == "std::result::Result" and core[2]:
+            core = strip_wrappers(core[2][0])
+        if core[0] == "agg" and core[1][0] == "adt" and (adts is None or core[1][1] in adts):
+            pure = True
+            from cfg import CFG
+            live = CFG(b).live
+            for blk in b.calls():
+                if blk.idx not in live or blk.cleanup:
+                    continue
+                fnr = blk.term.get("fn") or {}
+                nm = fnr.get("name") or ""
+                p = fnr.get("path") or ""
+                if nm in PURE_CALL_NAMES or p.startswith(("core::fmt", "alloc::fmt", "alloc::string", "core::any", "alloc::str", "core::ops::deref")):
+                    continue
+                pure = False
+            if pure:
+                res = (r, tr)
+    _summary_cache[key] = res
+    return res
+
+
+def substitute_params(t, args, tr_callee=None, depth=0):
+    """Replace ("param", i) leaves of a callee-level term by the caller-level argument terms.
+    Call results inside the callee that depend only on parameters (e.g. `self.identity()`) are
+    re-expressed as ("calleecall", callee_def, args...)."""
+    if not isinstance(t, tuple) or not t or depth > 40:
+        return t
+    k = t[0]
+    if k == "param" and len(t) == 2:
+        return args[t[1] - 1] if 0 < t[1] <= len(args) else ("unknown", "param")
+    if k == "call" and tr_callee is not None:
+        inner = tuple(substitute_params(tr_callee.norm(a), args, tr_callee, depth + 1) for a in tr_callee.call_args(t[1]))
+        return ("calleecall", t[2], inner)
+    if k in ("ref", "deref", "discr"):
+        return simplify((k, substitute_params(t[1], args, tr_callee, depth + 1)))
+    if k in ("field", "downcast"):
+        return simplify((k, t[1], substitute_params(t[2], args, tr_callee, depth + 1)))
+    if k == "cast":
+        return ("cast", t[1], substitute_params(t[2], args, tr_callee, depth + 1)) + tuple(t[3:])
+    if k == "agg":
+        return ("agg", t[1], tuple(substitute_params(x, args, tr_callee, depth + 1) for x in t[2]))
+    if k == "phi":
+        return ("phi", tuple(substitute_params(x, args, tr_callee, depth + 1) for x in t[1]))
+    if k == "await":
+        return ("await", substitute_params(t[1], args, tr_callee, depth + 1), t[2])
+    return t
